@@ -47,7 +47,7 @@ func catalogue(w *world) []*entry {
 	pubA := &w.sm2A.PublicKey
 	add("sm2.VerifyASN1WithSM2", S("sm2.sig"), func(b []byte) bool { return sm2.VerifyASN1WithSM2(pubA, nil, w.msg, b) })
 	add("sm2.VerifyASN1", S("sm2.sig.digest"), func(b []byte) bool { return sm2.VerifyASN1(pubA, w.digest, b) })
-	add("sm2.VerifyASN1/legacy-p256", S("sm2.legacy.p256.sig"), func(b []byte) bool { return sm2.VerifyASN1(&w.nistP256.PublicKey, w.digest, b) })
+	add("sm2.VerifyASN1/legacy-p384", S("sm2.legacy.p384.sig"), func(b []byte) bool { return sm2.VerifyASN1(&w.nistP384.PublicKey, w.digest, b) })
 	add("sm2.RecoverPublicKeysFromSM2Signature", S("sm2.sig.digest"), func(b []byte) bool {
 		_, err := sm2.RecoverPublicKeysFromSM2Signature(w.digest, b)
 		return err == nil
